@@ -9,7 +9,7 @@
    exactly (IEEE-754 binary64); [majority_of now mn l] is the verdict of
    filter_stale_find_most_frequent for the minimum [mn]. *)
 From Coq Require Import List NArith Bool Permutation.
-From Discv5V Require Import Generated.Params Model.IpVote Proofs.IpVote.
+From Discv5V Require Import Generated.Params Model.IpVote Proofs.IpVote Proofs.IpVoteGap.
 Import ListNotations.
 Local Open Scope N_scope.
 
@@ -167,3 +167,49 @@ Example C17_example_update :
   length (voters_for (false, 9) (map pong_of [P 1 7; P 2 7; P 3 9])) = 1%nat.
 Proof. vm_compute. repeat split; reflexivity. Qed.
 Print Assumptions C17_example_update.
+
+(* ---------------------------------------------------------------- the whole first sentence, composed *)
+
+(* (gap audit, notes/gap_audit_C14_C20.md)  The theorems above state the clauses separately
+   (the change is to the verdict of the scan; the verdict is the address with >= minimum unexpired
+   entries and a clear lead; a table has one entry per node, its most recent vote).  Composed, for
+   every PONG [x] of every history [pre ++ [x]] from the initial service (any voters, connection
+   directions, times, families, minimum >= 1 - IpVote::new insists on >= 2):
+   if the PONG changes the record's address of family [fam], then with [t] the vote table the
+   decision was taken on and [nq] the moment of the decision,
+     - the new address [a] is the entry of each peer of [quorum nq a t]: these peers are pairwise
+       distinct and at least [mn]; the entry of each is unexpired at [nq], and was cast by a PONG
+       of that peer in the history that reported exactly (fam, a);
+     - [t] has one entry per peer (its most recent vote, C17_entry_is_most_recent_unexpired_vote);
+     - every rival address has fewer than threshold(count of a) unexpired entries (the clear-
+       majority margin, C17_threshold_is_70_percent_rounded);
+     - the sequence number grows by one and exactly one SocketUpdated(a) event is appended.
+   The signature of the new record is the enr crate's (oracle input p_enr_ok; observed to verify
+   by the correspondence run). *)
+Theorem C17_every_change_is_backed_by_a_quorum :
+  forall mn dur dual e0 (pre : list (pong * N * N)) (x : pong * N * N) fam, 1 <= mn ->
+  let s1 := run_pongs (initial_service mn dur dual e0) pre in
+  let nq := snd (fst x) in
+  let s2 := handle_pong s1 (pong_of x) nq (snd x) in
+  udp fam (enr s2) <> udp fam (enr s1) ->
+  exists a t,
+    udp fam (enr s2) = Some a /\
+    NoDup (map vnode t) /\
+    NoDup (quorum nq a t) /\ mn <= N.of_nat (length (quorum nq a t)) /\
+    (forall n, In n (quorum nq a t) ->
+       (exists v, entry n t = Some v /\ vaddr v = a /\ fresh nq v = true) /\
+       (exists p, In p (map pong_of (pre ++ [x])) /\ p_node p = n /\ p_sock p = (fam, a))) /\
+    (forall b, b <> a -> cnt nq b t < threshold (cnt nq a t)) /\
+    seq (enr s2) = seq (enr s1) + 1 /\
+    events s2 = events s1 ++ [(fam, a)].
+Proof. exact change_backed_by_quorum. Qed.
+Print Assumptions C17_every_change_is_backed_by_a_quorum.
+
+(* non-trivial instance: in C17_example_update the second PONG changes udp4 from None to 7 *)
+Example C17_example_change_happens :
+  let P n a := ({| p_node := n; p_sock := (false, a); p_count_ok := true; p_conn_out := true; p_enr_ok := true |}, 100, 100) in
+  let s1 := run_pongs (initial_service 2 1000 false {| seq := 1; udp4 := None; udp6 := None |}) [P 1 7] in
+  let s2 := handle_pong s1 (pong_of (P 2 7)) 100 100 in
+  udp false (enr s2) <> udp false (enr s1) /\ udp false (enr s2) = Some 7.
+Proof. vm_compute. split; [discriminate|reflexivity]. Qed.
+Print Assumptions C17_example_change_happens.
